@@ -67,9 +67,10 @@ Proof.
     destruct (if ntype_eqb (n_ty (nd h old)) TElem then p_remove h1 this old else v_remove h1 this old) as [h2 r2] eqn:E2.
     assert (G2 : G h1 h2) by (destruct (ntype_eqb _ _); [eapply G_p_remove|eapply G_v_remove]; eauto).
     destruct G2 as [W2 L2].
-    destruct (is_err r2); intros [= <- _].
+    destruct (is_err r2); [intros [= <- _]|].
     + destruct (G_upd h2 this (set_docel (n_docel (nd h this))) ltac:(auto with upres) W2). split; [assumption|lia].
-    + split; [assumption|lia].
+    + destruct (_ && _ && _); intros [= <- _]; [|split; [assumption|lia]].
+      destruct (G_upd h2 this (set_docel None) ltac:(auto with upres) W2). split; [assumption|lia].
   - destruct (ins _ _ h this new (Some old)) as [h1 r1] eqn:E1. pose proof (G_ins _ _ _ _ _ _ _ W Ht E1) as [W1 L1].
     destruct (is_err r1); [intros [= <- _]; split; assumption|].
     intros E2. eapply G_trans; [split; eassumption|]. eapply G_p_remove; eauto.
@@ -127,28 +128,34 @@ Proof.
     destruct (G_upd h1 n (set_val (firstn (N.to_nat off) (n_val (nd h n)))) ltac:(auto with upres) W1). split; [assumption|lia].
 Qed.
 
-Lemma G_norm : forall fuel h this kid h' r, WFup h -> norm fuel h this kid = (h', r) -> G h h'.
+Lemma G_norm : forall fuel cf h this kid h' r, WFup h -> norm fuel cf h this kid = (h', r) -> G h h'.
 Proof.
-  induction fuel as [|fuel IH]; intros h this kid h' r W; cbn [norm]; [done_same|].
+  induction fuel as [|fuel IH]; intros cf h this kid h' r W; cbn [norm]; [done_same|].
   destruct kid as [k|]; [|done_same].
   assert (Elem : forall nx, (if ntype_eqb (n_ty (nd h k)) TElem
-            then let (h1, r1) := norm fuel h k (n_first (nd h k)) in if is_err r1 then (h1, r1) else norm fuel h1 this nx
-            else norm fuel h this nx) = (h', r) -> G h h').
+            then let (h1, r1) := norm fuel cf h k (n_first (nd h k)) in if is_err r1 then (h1, r1) else norm fuel cf h1 this nx
+            else norm fuel cf h this nx) = (h', r) -> G h h').
   { intros nx. destruct (ntype_eqb (n_ty (nd h k)) TElem); [|apply IH; assumption].
-    destruct (norm fuel h k (n_first (nd h k))) as [h1 r1] eqn:E1. pose proof (IH _ _ _ _ _ W E1) as [W1 L1].
+    destruct (norm fuel cf h k (n_first (nd h k))) as [h1 r1] eqn:E1. pose proof (IH _ _ _ _ _ _ W E1) as [W1 L1].
     destruct (is_err r1); [intros [= <- _]; split; assumption|]. intros E2.
     eapply G_trans; [split; eassumption|]. eapply IH; eauto. }
-  destruct (n_next (nd h k)) as [nx|]; [|apply Elem].
-  destruct (_ && _); [|apply Elem].
+  assert (Empty : forall nx, (let (h1, r1) := p_remove h this k in if is_err r1 then (h1, r1) else norm fuel cf h1 this nx) = (h', r) -> G h h').
+  { intros nx. destruct (p_remove h this k) as [h1 r1] eqn:E1. pose proof (G_p_remove _ _ _ _ _ W E1) as [W1 L1].
+    destruct (is_err r1); [intros [= <- _]; split; assumption|]. intros E2.
+    eapply G_trans; [split; eassumption|]. eapply IH; eauto. }
+  destruct (n_next (nd h k)) as [nx|].
+  2:{ destruct (_ && _ && _); [apply Empty|apply Elem]. }
+  destruct (ntype_eqb (n_ty (nd h k)) TText && ntype_eqb (n_ty (nd h nx)) TText).
+  2:{ destruct (_ && _ && _); [apply Empty|apply Elem]. }
   destruct (cd_append h k (n_val (nd h nx))) as [h1 r1] eqn:E1. pose proof (G_cd_append _ _ _ _ _ W E1) as [W1 L1].
   destruct (is_err r1); [intros [= <- _]; split; assumption|].
   destruct (p_remove h1 this nx) as [h2 r2] eqn:E2. pose proof (G_p_remove _ _ _ _ _ W1 E2) as [W2 L2].
   destruct (is_err r2); [intros [= <- _]; split; [assumption|lia]|]. intros E3.
-  destruct (IH _ _ _ _ _ W2 E3). split; [assumption|lia].
+  destruct (IH _ _ _ _ _ _ W2 E3). split; [assumption|lia].
 Qed.
 
-Lemma G_normalize : forall h n h' r, WFup h -> normalize h n = (h', r) -> G h h'.
-Proof. intros h n h' r W. unfold normalize. destruct (is_leaf _); [done_same|]. apply G_norm; assumption. Qed.
+Lemma G_normalize : forall cf h n h' r, WFup h -> normalize cf h n = (h', r) -> G h h'.
+Proof. intros cf h n h' r W. unfold normalize. destruct (is_leaf _); [done_same|]. apply G_norm; assumption. Qed.
 
 Lemma G_clone_kids : forall k clonef h c kid h' r,
   (forall h0 m h1 r1, WFup h0 -> clonef h0 m = (h1, r1) -> G h0 h1) ->
@@ -173,9 +180,45 @@ Lemma clone_shallow_ok : forall h n, n_ty (nd h n) <> TDoc ->
   n_owned (clone_shallow cfg_fixed h n) = false /\ n_ty (clone_shallow cfg_fixed h n) <> TDoc.
 Proof. intros h n T. unfold clone_shallow. destruct (n_ty (nd h n)); cbn; split; try discriminate; auto. Qed.
 
+Lemma up_pres_udata v : up_pres (set_udata v). Proof. intros []; reflexivity. Qed.
+Lemma up_pres_hasud v : up_pres (set_hasud v). Proof. intros []; reflexivity. Qed.
+Lemma up_pres_isid v : up_pres (set_isid v). Proof. intros []; reflexivity. Qed.
+Lemma up_pres_idtab v : up_pres (set_idtab v). Proof. intros []; reflexivity. Qed.
+Lemma up_pres_idnum v : up_pres (set_idnum v). Proof. intros []; reflexivity. Qed.
+Lemma up_pres_released : up_pres set_released. Proof. intros []; reflexivity. Qed.
+#[export] Hint Resolve up_pres_udata up_pres_hasud up_pres_isid up_pres_idtab up_pres_idnum up_pres_released : upres.
 Lemma up_pres_oelem v : up_pres (set_oelem v). Proof. intros []; reflexivity. Qed.
 Lemma up_pres_dead v : up_pres (set_dead v). Proof. intros []; reflexivity. Qed.
 #[export] Hint Resolve up_pres_oelem up_pres_dead : upres.
+
+Definition WL (h h' : heap) : Prop := WFup h' /\ length h' = length h.
+Lemma WL_upd : forall h i f, up_pres f -> WFup h -> WL h (upd h i f).
+Proof. intros h i f Hf W. destruct (G_upd h i f Hf W). split; [assumption|apply length_upd]. Qed.
+Lemma WL_trans : forall a b c, WL a b -> WL b c -> WL a c.
+Proof. intros a b c [_ L1] [W L2]. split; [assumption|congruence]. Qed.
+Lemma WL_id_add : forall h a, WFup h -> WL h (id_add h a).
+Proof.
+  intros h a W. unfold id_add.
+  match goal with |- WL _ (upd (upd ?H ?d ?f) _ ?g) =>
+    destruct (WL_upd H d f ltac:(auto with upres) W) as [W1 L1]; destruct (WL_upd _ d g ltac:(auto with upres) W1) as [W2 L2] end.
+  split; [exact W2|congruence].
+Qed.
+Lemma WL_id_remove : forall h a, WFup h -> WL h (id_remove h a).
+Proof. intros h a W. unfold id_remove. destruct (id_probe_attr _ _ _ _ _); [apply WL_upd; auto with upres|split; auto]. Qed.
+Lemma WL_attr_id_on : forall h a, WFup h -> WL h (attr_id_on h a).
+Proof.
+  intros h a W. unfold attr_id_on. destruct (n_isid _); [split; auto|].
+  destruct (WL_upd h a (set_isid true) ltac:(auto with upres) W) as [W1 L1].
+  destruct (WL_id_add _ a W1) as [W2 L2]. split; [exact W2|congruence].
+Qed.
+Lemma WL_attr_id_off : forall h a, WFup h -> WL h (attr_id_off h a).
+Proof.
+  intros h a W. unfold attr_id_off. destruct (n_isid _); [|split; auto].
+  destruct (WL_id_remove h a W) as [W1 L1].
+  destruct (WL_upd _ a (set_isid false) ltac:(auto with upres) W1) as [W2 L2]. split; [exact W2|congruence].
+Qed.
+Lemma WL_G : forall h h', WL h h' -> G h h'.
+Proof. intros h h' [W L]. split; [assumption|lia]. Qed.
 
 Lemma G_clone_attrs : forall clonef l h c h' r,
   (forall h0 m h1 r1, WFup h0 -> clonef h0 m = (h1, r1) -> G h0 h1) ->
@@ -196,21 +239,28 @@ Proof.
   assert (T : n_ty (nd h n) <> TDoc) by (intros E; rewrite E in ET; discriminate).
   unfold alloc.
   destruct (clone_shallow_ok h n T) as [So St].
-  pose proof (G_alloc h _ W So St) as [W1 L1]. rewrite app_length in L1. cbn [length] in L1.
+  pose proof (G_alloc h _ W So St) as [W0 L0]. rewrite app_length in L0. cbn [length] in L0.
+  set (hA := if ntype_eqb (n_ty (nd h n)) TAttr && n_isid (nd h n) then id_add (h ++ [clone_shallow cfg_fixed h n]) (length h)
+             else h ++ [clone_shallow cfg_fixed h n]).
+  assert (WA : WFup hA /\ length hA = length h + 1).
+  { subst hA. destruct (_ && _).
+    - destruct (WL_id_add _ (length h) W0) as [Wx Lx]. split; [assumption|]. rewrite Lx, app_length. reflexivity.
+    - split; [assumption|]. rewrite app_length. reflexivity. }
+  destruct WA as [W1 L1]. clearbody hA.
   match goal with |- context [is_err (snd ?R)] => remember R as res eqn:Eres end.
   assert (Gres : WFup (fst res) /\ length h <= length (fst res)).
   { destruct res as [hr rr]. symmetry in Eres. cbn [fst]. revert Eres.
-    destruct (_ && negb (is_leaf (n_ty (nd h n)))); [|intros [= <- _]; split; [assumption|rewrite app_length; cbn; lia]].
+    destruct (_ && negb (is_leaf (n_ty (nd h n)))); [|intros [= <- _]; split; [assumption|lia]].
     match goal with |- context [clone_kids _ _ _ ?X _ _] => set (h1 := X) end.
     assert (G1 : WFup h1 /\ length h1 = length h + 1).
-    { subst h1. destruct (n_ty (nd h n)); try (split; [assumption|rewrite app_length; reflexivity]).
-      destruct (G_upd (h ++ [clone_shallow cfg_fixed h n]) (length h) (set_ro false) ltac:(auto with upres) W1).
-      split; [assumption|rewrite length_upd, app_length; reflexivity]. }
+    { subst h1. destruct (n_ty (nd h n)); try (split; assumption).
+      destruct (G_upd hA (length h) (set_ro false) ltac:(auto with upres) W1).
+      split; [assumption|rewrite length_upd; assumption]. }
     destruct G1 as [Wh1 Lh1].
     destruct (clone_kids _ _ _ h1 _ _) as [h4 r4] eqn:E4.
     assert (G4 : G h1 h4).
     { assert (Hc1 : length h < length h1) by lia.
-      eapply G_clone_kids; [| |exact Hc1|exact E4]; [|assumption]. intros h0 m h2 r2 W0 E0. cbv beta in E0. eapply IH; eassumption. }
+      eapply G_clone_kids; [| |exact Hc1|exact E4]; [|assumption]. intros h0 m h2 r2 Wm E0. cbv beta in E0. eapply IH; eassumption. }
     destruct G4 as [W4 L4].
     destruct (is_err r4); [intros [= <- _]; split; [assumption|lia]|].
     destruct (n_ty (nd h n)); intros [= <- _]; try (split; [assumption|lia]).
@@ -221,7 +271,7 @@ Proof.
   destruct (is_err (snd res)); [exact Fin|].
   destruct (clone_attrs _ (fst res) (length h) _) as [h5 r5] eqn:E5.
   assert (G5 : G (fst res) h5).
-  { eapply G_clone_attrs; [|exact Wr|exact E5]. intros h0 m h2 r2 W0 E0. cbv beta in E0. eapply IH; eassumption. }
+  { eapply G_clone_attrs; [|exact Wr|exact E5]. intros h0 m h2 r2 Wm E0. cbv beta in E0. eapply IH; eassumption. }
   destruct G5 as [W5 L5]. destruct (is_err r5); intros [= <- _]; (split; [assumption|lia]).
 Qed.
 
@@ -267,12 +317,19 @@ Proof.
   destruct ns as [|c ns]; [intros [= <- _]; apply G_upd; auto with upres|].
   destruct (negb (valid_name nm)); [done_same|].
   destruct (ns_bind _ _ nm) as [uri|]; [|done_same].
-  set (x := mkNode _ nm _ _ _ _ _ _ _ _ _ _ _ _ _ _ _). set (h1 := h ++ [x]).
+  set (x := mkNode _ nm _ _ _ _ _ _ _ _ _ _ _ _ _ _ _ _ _ _ _ _). set (h0 := h ++ [x]).
   assert (Tx : n_ty (nd h n) <> TDoc).
   { intros T. rewrite T in ET. discriminate. }
-  assert (G1 : G h h1) by (subst h1 x; apply G_alloc; auto).
-  destruct G1 as [W1 L1].
-  assert (Ll : length h < length h1) by (subst h1; rewrite app_length; cbn; lia).
+  assert (G0 : G h h0) by (subst h0 x; apply G_alloc; auto).
+  destruct G0 as [W0 L0].
+  assert (Ll0 : length h0 = length h + 1) by (subst h0; rewrite app_length; reflexivity).
+  match goal with |- context [parent ?H n] => set (h1 := H) end.
+  assert (WL1 : WL h0 h1).
+  { subst h1. repeat (eapply WL_trans; [|apply WL_upd; [auto with upres|]]); try (split; [exact W0|reflexivity]).
+    all: repeat (first [exact W0 | apply (fun H i f P W => proj1 (WL_upd H i f P W)); [auto with upres|]]). }
+  destruct WL1 as [W1 L1e].
+  assert (L1 : length h <= length h1) by lia.
+  assert (Ll : length h < length h1) by lia.
   set (par := if ntype_eqb (n_ty (nd h n)) TAttr then None else parent h1 n).
   destruct par as [p|] eqn:Ep.
   - assert (Hp : p < length h1).
@@ -311,40 +368,50 @@ Proof. intros h i H. unfold valid in H. apply andb_prop in H. destruct H as [H _
 Lemma G_kill : forall fuel h n, WFup h -> WFup (kill fuel h n) /\ length (kill fuel h n) = length h.
 Proof.
   induction fuel as [|fuel IH]; intros h n W; cbn [kill]; [split; [assumption|reflexivity]|].
-  destruct (G_upd h n (set_dead true) ltac:(auto with upres) W) as [W1 _].
-  assert (L1 : length (upd h n (set_dead true)) = length h) by apply length_upd.
-  revert W1 L1. generalize (upd h n (set_dead true)). generalize (kids h n). intros l.
+  destruct (WL_upd h n set_released ltac:(auto with upres) W) as [W1 L1].
+  revert W1 L1. generalize (upd h n set_released). generalize (kids h n ++ n_attrs (nd h n)). intros l.
   induction l as [|k l IHl]; intros h0 W0 L0; cbn [fold_left]; [split; assumption|].
   destruct (IH h0 k W0) as [W2 L2]. apply IHl; [exact W2|lia].
 Qed.
 
-Lemma G_set_attr_node : forall h e a h' r, WFup h -> set_attribute_node h e a = (h', r) -> G h h'.
+Lemma WL_fold_id_off : forall l h, WFup h -> WL h (fold_left attr_id_off l h).
 Proof.
-  intros h e a h' r W. unfold set_attribute_node, amap_set. destruct (n_ro (nd h e)); [done_same|].
+  induction l as [|a l IH]; intros h W; cbn [fold_left]; [split; auto|].
+  destruct (WL_attr_id_off h a W) as [W1 L1]. destruct (IH _ W1) as [W2 L2]. split; [exact W2|congruence].
+Qed.
+
+Lemma G_set_attr_node : forall h e a h' r, WFup h -> set_attribute_node cfg_fixed h e a = (h', r) -> G h h'.
+Proof.
+  intros h e a h' r W. unfold set_attribute_node, amap_set. change (fix_setattr_id cfg_fixed) with true. cbv iota.
+  destruct (n_ro (nd h e)); [done_same|].
   destruct (negb (oid_eqb _ _)); [done_same|]. destruct (match n_oelem (nd h a) with Some o => _ | None => false end); [done_same|].
   destruct (G_upd h a (set_oelem (Some e)) ltac:(auto with upres) W) as [W1 L1].
   match goal with |- context [upd ?H e (set_attrs ?L)] => destruct (G_upd H e (set_attrs L) ltac:(auto with upres) W1) as [W2 L2] end.
   destruct (amap_find _ _ _) as [p|]; [|intros [= <- _]; split; [assumption|lia]].
   destruct (Nat.eqb p a); intros [= <- _]; [split; [assumption|lia]|].
-  match goal with |- G _ (upd ?H p ?f) => destruct (G_upd H p f ltac:(auto with upres) W2) end. split; [assumption|lia].
+  match goal with |- G _ (attr_id_off (upd ?H p ?f) p) =>
+    destruct (WL_upd H p f ltac:(auto with upres) W2) as [W3 L3]; destruct (WL_attr_id_off _ p W3) as [W4 L4] end.
+  split; [assumption|]. rewrite L4, L3. lia.
 Qed.
 Lemma G_remove_attr_node : forall h e a h' r, WFup h -> remove_attribute_node h e a = (h', r) -> G h h'.
 Proof.
   intros h e a h' r W. unfold remove_attribute_node. destruct (n_ro _); [done_same|].
   destruct (if n_nsimpl (nd h a) then _ else _) as [f|]; [|done_same].
   destruct (Nat.eqb f a); [|done_same]. intros [= <- _].
-  destruct (G_upd h e (set_attrs (amap_del (n_attrs (nd h e)) a)) ltac:(auto with upres) W) as [W1 L1].
-  destruct (G_upd _ a (set_oelem None) ltac:(auto with upres) W1). split; [assumption|lia].
+  destruct (WL_upd h e (set_attrs (amap_del (n_attrs (nd h e)) a)) ltac:(auto with upres) W) as [W1 L1].
+  destruct (WL_upd _ a (set_oelem None) ltac:(auto with upres) W1) as [W2 L2].
+  destruct (WL_attr_id_off _ a W2) as [W3 L3]. split; [assumption|lia].
 Qed.
 Lemma G_rename : forall h d n ns nm h' r, WFup h -> rename_node cfg_fixed h d n ns nm = (h', r) -> G h h'.
 Proof.
   intros h d n ns nm h' r W. unfold rename_node. destruct (negb (oid_eqb _ _)); [done_same|].
+  destruct (_ && _ && _); [done_same|].
   destruct (if ntype_eqb _ TAttr then _ else None) as [el|]; [|apply G_rename_core; assumption].
   destruct (remove_attribute_node h el n) as [h1 r1] eqn:E1. pose proof (G_remove_attr_node _ _ _ _ _ W E1) as [W1 L1].
   destruct (is_err r1); [intros [= <- _]; split; assumption|].
   destruct (rename_core cfg_fixed h1 d n ns nm) as [h2 r2] eqn:E2. pose proof (G_rename_core _ _ _ _ _ _ _ W1 E2) as [W2 L2].
   destruct r2; try (intros [= <- _]; split; [assumption|lia]).
-  destruct (set_attribute_node h2 el i) as [h3 r3] eqn:E3. pose proof (G_set_attr_node _ _ _ _ _ W2 E3) as [W3 L3].
+  destruct (set_attribute_node cfg_fixed h2 el i) as [h3 r3] eqn:E3. pose proof (G_set_attr_node _ _ _ _ _ W2 E3) as [W3 L3].
   cbn [fst]. intros [= <- _]. split; [assumption|lia].
 Qed.
 
@@ -383,23 +450,32 @@ Proof.
     apply G_split; try assumption; [apply valid_lt; assumption|]. intros T. rewrite T in Ev2. discriminate.
   - splitc. unfold remove_attribute. destruct (n_ro _); [done_same|]. destruct (amap_find _ _ _) as [i|]; [|done_same].
     intros [= <- _].
-    destruct (G_upd h e (set_attrs (amap_del (n_attrs (nd h e)) i)) ltac:(auto with upres) W) as [W1 L1].
-    destruct (G_upd _ i (set_oelem None) ltac:(auto with upres) W1) as [W2 L2].
-    destruct (G_kill (length h) _ i W2) as [W3 L3]. split; [assumption|]. rewrite L3, !length_upd. lia.
+    destruct (WL_upd h e (set_attrs (amap_del (n_attrs (nd h e)) i)) ltac:(auto with upres) W) as [W1 L1].
+    destruct (WL_upd _ i (set_oelem None) ltac:(auto with upres) W1) as [W2 L2].
+    destruct (WL_attr_id_off _ i W2) as [W3 L3].
+    destruct (G_kill (length h) _ i W3) as [W4 L4]. split; [assumption|]. rewrite L4, L3, L2, L1. lia.
   - splitc. unfold get_attribute. done_same.
-  - splitc. unfold set_attribute_node, amap_set. destruct (n_ro (nd h e)); [done_same|].
-    destruct (negb (oid_eqb _ _)); [done_same|]. destruct (match n_oelem (nd h a) with Some o => _ | None => false end); [done_same|].
-    destruct (G_upd h a (set_oelem (Some e)) ltac:(auto with upres) W) as [W1 L1].
-    match goal with |- context [upd ?H e (set_attrs ?L)] => destruct (G_upd H e (set_attrs L) ltac:(auto with upres) W1) as [W2 L2] end.
-    destruct (amap_find _ _ _) as [p|]; [|intros [= <- _]; split; [assumption|lia]].
-    destruct (Nat.eqb p a); intros [= <- _]; [split; [assumption|lia]|].
-    match goal with |- G _ (upd ?H p ?f) => destruct (G_upd H p f ltac:(auto with upres) W2) end. split; [assumption|lia].
-  - splitc. unfold remove_attribute_node. destruct (n_ro _); [done_same|].
-    destruct (if n_nsimpl (nd h a) then _ else _) as [f|]; [|done_same].
-    destruct (Nat.eqb f a); [|done_same]. intros [= <- _].
-    destruct (G_upd h e (set_attrs (amap_del (n_attrs (nd h e)) a)) ltac:(auto with upres) W) as [W1 L1].
-    destruct (G_upd _ a (set_oelem None) ltac:(auto with upres) W1). split; [assumption|lia].
+  - splitc. apply G_set_attr_node; assumption.
+  - splitc. apply G_remove_attr_node; assumption.
   - splitc. unfold get_attribute_node. done_same.
+  - splitc. unfold set_user_data. destruct (_ && _); [done_same|]. destruct (N.eqb data 0); intros [= <- _].
+    + destruct (WL_upd h n (set_udata (ud_del (n_udata (nd h n)) key)) ltac:(auto with upres) W) as [W1 L1].
+      match goal with |- G _ (upd ?H n ?f) => destruct (WL_upd H n f ltac:(auto with upres) W1) as [W2 L2] end. split; [assumption|lia].
+    + match goal with |- G _ (upd (upd h n ?f1) n ?f2) =>
+        destruct (WL_upd h n f1 ltac:(auto with upres) W) as [W1 L1]; destruct (WL_upd _ n f2 ltac:(auto with upres) W1) as [W2 L2] end.
+      split; [assumption|lia].
+  - splitc. unfold get_user_data. done_same.
+  - splitc. unfold release_node. destruct (n_ty (nd h n)); try done_same;
+      (destruct (_ || _); [done_same|]; destruct (_ && _); [done_same|]; intros [= <- _];
+       destruct (WL_fold_id_off (subtree (length h) h n) h W) as [W1 L1];
+       destruct (G_kill (length h) _ n W1) as [W2 L2]; split; [assumption|lia]).
+  - splitc. unfold set_id_attribute. destruct (n_ro _); [done_same|]. destruct (amap_find _ _ _) as [a|]; [|done_same].
+    destruct isid; intros [= <- _]; apply WL_G; [apply WL_attr_id_on|apply WL_attr_id_off]; assumption.
+  - splitc. unfold set_id_attribute_node. destruct (n_ro _); [done_same|].
+    destruct (if n_nsimpl (nd h a) then _ else _) as [f|]; [|done_same].
+    destruct (_ && negb _); [done_same|].
+    destruct isid; intros [= <- _]; apply WL_G; [apply WL_attr_id_on|apply WL_attr_id_off]; assumption.
+  - splitc. unfold get_element_by_id. done_same.
   - splitc. apply G_rename; assumption.
 Qed.
 
